@@ -15,7 +15,9 @@ var mtimeCounter int64
 // file versions with different bytes never share (size, mtime).
 func uniqueMtime() int64 {
 	n := atomic.AddInt64(&mtimeCounter, 1)
-	return 1500000000000000000 + n*1000003 + (n*7919)%1000
+	// unique but NOT monotone: multiplication by an odd constant is a bijection mod 2^31, so
+	// later versions of a file are as often older as newer than what was transferred before
+	return 1500000000000000000 + ((n*2654435761)%(1<<31))*1000 + n%1000
 }
 
 func fileData(seed int64, size int) []byte {
@@ -126,6 +128,17 @@ func RandomTree(r *rand.Rand, o genOpts) model.Tree {
 
 // MutateTree returns an edited copy: a history step between two syncs.
 func MutateTree(r *rand.Rand, src model.Tree, o genOpts, steps int) (model.Tree, []string) {
+	return mutateTree(r, src, o, steps, -1, -1)
+}
+
+// MutateAt applies mutation kind op to entry i (a no-op if it does not apply there).
+func MutateAt(r *rand.Rand, src model.Tree, o genOpts, i, op int) (model.Tree, []string) {
+	return mutateTree(r, src, o, 1, i, op)
+}
+
+const numMutations = 14
+
+func mutateTree(r *rand.Rand, src model.Tree, o genOpts, steps, forceI, forceOp int) (model.Tree, []string) {
 	t := src.Clone()
 	var ops []string
 	for s := 0; s < steps; s++ {
@@ -137,9 +150,12 @@ func MutateTree(r *rand.Rand, src model.Tree, o genOpts, steps int) (model.Tree,
 			continue
 		}
 		i := r.Intn(len(t))
+		op := r.Intn(numMutations)
+		if forceI >= 0 && forceI < len(t) {
+			i, op = forceI, forceOp
+		}
 		e := &t[i]
 		ingroup := e.Group != 0
-		op := r.Intn(13)
 		switch op {
 		case 0: // rewrite, same size
 			if e.Type == "file" && !ingroup {
@@ -271,6 +287,33 @@ func MutateTree(r *rand.Rand, src model.Tree, o genOpts, steps int) (model.Tree,
 							ops = append(ops, "link")
 							break
 						}
+					}
+				}
+			}
+		case 13: // twin relink: a later group member is re-linked to a new file that is identical to
+			// its old primary in bytes and every metadata field; only the link name changes
+			if o.Links && ingroup {
+				first := -1
+				for k := range t {
+					if t[k].Group == e.Group {
+						first = k
+						break
+					}
+				}
+				if first >= 0 && first != i {
+					a := t[first]
+					tw := a
+					d := ""
+					if k := strings.LastIndex(a.Path, "/"); k >= 0 {
+						d = a.Path[:k+1]
+					}
+					tw.Path = d + "0tw" + fmt.Sprint(r.Intn(1000))
+					if t.Find(tw.Path) == nil {
+						g := 200000 + r.Intn(100000)
+						tw.Group = g
+						e.Group = g
+						t = append(t, tw)
+						ops = append(ops, "twinRelink")
 					}
 				}
 			}
